@@ -72,6 +72,11 @@ func (plugin *CachingPlugin) OnResponse(
 	remedyConfig *sharedConfig.CachingConfig,
 	pathParams map[string]string,
 ) (actions.RespLunarAction, error) {
+	if onResponse.FromGateway {
+		// Not a provider response: storing e.g. the replay of an entry that
+		// expired since it was looked up would serve it for another TTL.
+		return &actions.NoOpAction{}, nil
+	}
 	bodySize := len([]byte(onResponse.Body))
 	if bodySize > remedyConfig.MaxRecordSizeBytes {
 		log.Debug().Msgf("Response too big, received body size: %+v, "+
